@@ -337,6 +337,11 @@ pub fn journal_read(dir: &std::path::Path) -> Vec<(String, Vec<u32>)> {
     out
 }
 
+thread_local! {
+    /// did the last case on this thread ask for more words than its tape held?
+    pub static LAST_EXHAUSTED: std::cell::Cell<bool> = std::cell::Cell::new(false);
+}
+
 pub fn run_case(f: &(dyn Fn(&mut Gen) -> Verdict + Sync), tape: &[u32], want_desc: bool) -> (Verdict, Option<Value>) {
     let mut g = Gen::new(tape);
     g.want_desc = want_desc;
@@ -350,6 +355,7 @@ pub fn run_case(f: &(dyn Fn(&mut Gen) -> Verdict + Sync), tape: &[u32], want_des
         watch_leave();
     }
     let desc = g.desc.take();
+    LAST_EXHAUSTED.with(|c| c.set(g.consumed() > tape.len()));
     match r {
         Ok(v) => (v, desc),
         Err(p) => (
@@ -514,7 +520,10 @@ fn worker(
     cfg.verbose = 0;
     cfg.source_file = None;
     let mut runner = TestRunner::new(cfg);
-    let strategy = proptest::collection::vec(proptest::num::u32::ANY, 0..=tape_len);
+    // Tape lengths between half and all of the suite's maximum: generators that need more choices
+    // than they get fall back to the simplest alternatives, so very short tapes starve the choices
+    // made late in a case. (Shrinking below the minimum length is done by `post_shrink`.)
+    let strategy = proptest::collection::vec(proptest::num::u32::ANY, tape_len / 2..=tape_len);
     let shrink_start: RefCell<Option<Instant>> = RefCell::new(None);
     let result = runner.run(&strategy, |tape| {
         let already_failed = stats.borrow().failed;
@@ -550,6 +559,9 @@ fn worker(
                     }
                     for l in labels {
                         *st.labels.entry(l).or_default() += 1;
+                    }
+                    if LAST_EXHAUSTED.with(|c| c.get()) {
+                        *st.labels.entry("(generator asked for more choices than the tape held: later choices took their simplest value)").or_default() += 1;
                     }
                 }
                 Ok(())
